@@ -21,7 +21,7 @@ NAME = "K"
 PROPERTY = "C14"
 RUNS = {"quick": 900, "thorough": 40000}
 RUN_WALL_CAP = 240.0
-REQUIRED_PROBES = {"quick": ["randomized_stage_ran", "exact_regime:k_ge_min_dim", "exact_regime:rank_one", "exact_regime:transpose_exact", "sdp_stage_k1", "sdp_stage_k2", "unequal_dims", "dim_scalar", "dim_omitted", "target_given", "non_hermitian", "projection", "own_upper_bound:dps2", "own_upper_bound:bilinear", "ppt_edge_operator", "two_operators_same_shape", "two_operators_k_ge_2", "target:just_below_attained", "structured_operator"], "thorough": ["randomized_stage_ran", "exact_regime:k_ge_min_dim", "exact_regime:rank_one", "exact_regime:transpose_exact", "sdp_stage_k1", "sdp_stage_k2", "unequal_dims", "dim_scalar", "dim_omitted", "target_given", "non_hermitian", "projection", "result_differs_between_rng_states", "own_upper_bound:dps2", "own_upper_bound:bilinear", "ppt_edge_operator", "two_operators_same_shape", "two_operators_k_ge_2", "target:just_below_attained", "structured_operator"]}
+REQUIRED_PROBES = {"quick": ["other_container", "randomized_stage_ran", "exact_regime:k_ge_min_dim", "exact_regime:rank_one", "exact_regime:transpose_exact", "sdp_stage_k1", "sdp_stage_k2", "unequal_dims", "dim_scalar", "dim_omitted", "target_given", "non_hermitian", "projection", "own_upper_bound:dps2", "own_upper_bound:bilinear", "ppt_edge_operator", "two_operators_same_shape", "two_operators_k_ge_2", "target:just_below_attained", "structured_operator"], "thorough": ["randomized_stage_ran", "exact_regime:k_ge_min_dim", "exact_regime:rank_one", "exact_regime:transpose_exact", "sdp_stage_k1", "sdp_stage_k2", "unequal_dims", "dim_scalar", "dim_omitted", "target_given", "non_hermitian", "projection", "result_differs_between_rng_states", "own_upper_bound:dps2", "own_upper_bound:bilinear", "ppt_edge_operator", "two_operators_same_shape", "two_operators_k_ge_2", "target:just_below_attained", "structured_operator"]}
 COMPONENTS = {"real": ["toqito.matrix_props.sk_operator_norm incl. the randomised lower bound", "toqito.state_props.sk_vector_norm, schmidt_rank, schmidt_decomposition", "toqito.perms.swap / symmetric_projection", "toqito.channels.partial_trace / partial_transpose / realignment", "scipy.linalg.eigh, cvxpy + SCS/Clarabel"], "stub": ["numpy process-global legacy RNG state (set from the choice source; adversary draws between calls)"]}
 RULE = ("one run = one operator, or two operators of the same local dimensions and k used alternately (density / PSD / projection of seeded rank / rank one / indefinite Hermitian / non-Hermitian / diagonal / block-diagonal / normal-cone operators at PPT edge states / |p><q|+|q><p|; targets placed just below or above an attainable value; local dimensions 2..4, unequal allowed; k = 1..min dim; dim as list / scalar / omitted; effort 0..2; target set or not) "
         "evaluated under 2..4 global-RNG states with adversary draws in between; non-trivial = the randomised stage executed (global RNG state advanced by the call); distinct = distinct digest of (operator, k, options, RNG states)")
@@ -222,6 +222,22 @@ def draw_operator(st, tier, like=None, prefer_k2=False, structured_k3=False):
     if st.draw(4) == 0:
         target = float(np.linalg.norm(x, 2) * (0.3 + 0.7 * rng.random()))
     meta = {"dims": dims, "kind": kind, "complex": cplx, "k": k, "effort": effort, "dim_arg": dimform, "target": target, "scale": scale}
+    # representation: integer-typed array for 0/1 diagonal operators, Fortran order, strided view.  np.matrix is
+    # not drawn: the pinned routine refuses it loudly in its randomised stage ("shape too large to be a matrix"),
+    # it does not return a wrong bracket, and the property quantifies over operators, not over deprecated containers
+    cont = st.weighted([("array", 6), ("fortran", 2), ("view", 2), ("integer", 2)])
+    if cont == "integer":
+        if kind == "diagonal" and scale == 1.0 and like is None and not structured_k3:
+            x = np.diag((np.diag(x).real > 0.35).astype(int))
+            if not x.any():
+                x[0, 0] = 1
+            meta["target"] = None if target is None else float(np.linalg.norm(x, 2) * (0.3 + 0.7 * rng.random()))
+            meta["container"] = "integer"
+    elif cont != "array":
+        from .hist_common import contain
+
+        x = contain(x, cont)
+        meta["container"] = cont
     return x, meta
 
 
@@ -313,8 +329,14 @@ def _scaled(v, c):
 
 def make_subject(cs, res, tier, stream, like=None, prefer_k2=False, structured_k3=False):
     sub = Subject()
-    x, meta = draw_operator(cs.s(stream), tier, like=like, prefer_k2=prefer_k2, structured_k3=structured_k3)
-    sub.x, sub.meta, sub.x0 = x, meta, x.copy()
+    x_lib, meta = draw_operator(cs.s(stream), tier, like=like, prefer_k2=prefer_k2, structured_k3=structured_k3)
+    # x_lib is what the library is given (possibly np.matrix / integer-typed / strided); every own reference is
+    # computed from a plain floating-point ndarray with the same entries
+    x = np.asarray(x_lib)
+    x = x.astype(float) if x.dtype.kind in "iub" else np.array(x)
+    sub.x, sub.meta, sub.x0 = x_lib, meta, np.array(x_lib, copy=True)
+    if "container" in meta:
+        res.probe("other_container")
     dims, k = meta["dims"], meta["k"]
     sub.opn = float(np.linalg.norm(x, 2))
     sub.herm = bool(np.allclose(x, x.conj().T))
